@@ -4,9 +4,9 @@ package main
 // with a NOTIFICATION that names a fault actually present.
 
 import (
-	"os"
 	"fmt"
 	"go/types"
+	"os"
 
 	"golang.org/x/tools/go/ssa"
 )
